@@ -174,6 +174,15 @@ pub struct RefOut<EF> {
 
 /// The reference interpreter: structural recursion using only `p3_field` arithmetic.
 pub fn ref_eval<BF: PrimeField64, EF: ExtensionField<BF>>(p: &Program) -> RefOut<EF> {
+    ref_eval_hinted::<BF, EF>(p, &std::collections::BTreeMap::new())
+}
+
+/// Like `ref_eval`, but the outputs of `decompose_ext_to_base_coeffs` listed in `hinted` (value
+/// index -> value) are taken as given, the way the builder treats them: hinted witnesses tied to
+/// `x` by the recomposition constraint only. That they are base-field elements is not a relation
+/// the builder asserts (the gadget's canonicity is C12's subject), so a judge of *compilation*
+/// must not count it.
+pub fn ref_eval_hinted<BF: PrimeField64, EF: ExtensionField<BF>>(p: &Program, hinted: &std::collections::BTreeMap<usize, EF>) -> RefOut<EF> {
     let d = <EF as BasedVectorSpace<BF>>::DIMENSION;
     let mut vals: Vec<Option<EF>> = Vec::new();
     let mut sat = true;
@@ -351,7 +360,20 @@ pub fn ref_eval<BF: PrimeField64, EF: ExtensionField<BF>>(p: &Program) -> RefOut
                 vals.push(acc);
             }
             Call::DecomposeExt(a) => {
-                if let Some(x) = g(*a) {
+                let base_idx = vals.len();
+                let given: Option<Vec<EF>> = (0..d).map(|i| hinted.get(&(base_idx + i)).copied()).collect();
+                if let (Some(x), Some(cs)) = (g(*a), given) {
+                    let mut acc = EF::ZERO;
+                    for (i, c) in cs.iter().enumerate() {
+                        acc += *c * basis(i);
+                    }
+                    if acc != x {
+                        fail(&mut sat, &mut first_violation, format!("call {ci}: recomposition constraint of the decomposition does not hold"));
+                    }
+                    for c in cs {
+                        vals.push(Some(c));
+                    }
+                } else if let Some(x) = g(*a) {
                     for c in <EF as BasedVectorSpace<BF>>::as_basis_coefficients_slice(&x) {
                         vals.push(Some(EF::from(*c)));
                     }
@@ -854,7 +876,7 @@ impl<'a, BF: PrimeField64, EF: ExtensionField<BF>> Gen<'a, BF, EF> {
 
     /// Connect shapes that keep the program satisfiable.
     fn connect_shape(&mut self) {
-        let shape = self.rng.below(11);
+        let shape = self.rng.below(12);
         match shape {
             0 | 1 => {
                 // value <-> fresh input of equal value
@@ -1008,6 +1030,31 @@ impl<'a, BF: PrimeField64, EF: ExtensionField<BF>> Gen<'a, BF, EF> {
                 let s2 = self.op2(0, y, r);
                 self.calls.push(Call::Connect(s2, t));
             }
+            11 => {
+                // a value pinned to a constant, possibly twice through two separate constant calls of
+                // equal value (a later perturbation of one of them makes the program statically
+                // false: two distinct constants in one connect class)
+                let x = if self.cfg.creator_aliasing && self.rng.chance(1, 3) {
+                    let v = self.rand_val();
+                    let p = self.rng.chance(1, 2);
+                    self.emit_input(v, p)
+                } else {
+                    let (a, b) = (self.any(), self.any());
+                    self.op2(2, a, b)
+                };
+                let vx = self.v(x);
+                let c1 = self.emit_const(vx);
+                self.calls.push(Call::Connect(x, c1));
+                if self.rng.chance(2, 3) {
+                    let c2 = self.emit_const(vx);
+                    if self.rng.chance(1, 2) {
+                        self.calls.push(Call::Connect(x, c2));
+                    } else {
+                        let dsub = self.op2(1, x, c2);
+                        self.calls.push(Call::AssertZero(dsub));
+                    }
+                }
+            }
             _ => {
                 // input connected to an op output created later
                 let va = self.rand_val();
@@ -1128,6 +1175,21 @@ pub fn perturb_input<BF: PrimeField64, EF: ExtensionField<BF>>(p: &mut Program, 
         p.privates[k - np] = newv;
         Some((false, k - np))
     }
+}
+
+/// Change one constant of the program (c -> c + 1): relations that pinned values to it no longer
+/// hold for any input.
+pub fn perturb_const<BF: PrimeField64, EF: ExtensionField<BF>>(p: &mut Program, rng: &mut Rng) -> Option<usize> {
+    let idxs: Vec<usize> = p.calls.iter().enumerate().filter(|(_, c)| matches!(c, Call::Const(_))).map(|(i, _)| i).collect();
+    if idxs.is_empty() {
+        return None;
+    }
+    let i = *rng.pick(&idxs);
+    if let Call::Const(v) = &mut p.calls[i] {
+        let cur = f_from_u64s::<BF, EF>(v);
+        *v = f_to_u64s::<BF, EF>(&(cur + EF::ONE));
+    }
+    Some(i)
 }
 
 /// Delta-debugging minimiser over calls: drop a call (and everything that depends on it) while
